@@ -10,9 +10,10 @@ SHRINK_SEP = ";"
 RULE = ("one case = one operation history `item ctor n values ; op ; op ...` run on the real Segtree, the Lean model and the "
         "plain-list spec. Items: Min/Max/Sum/MinAdd/MaxAdd/SumAdd at i64, Combinator<MinAdd,MaxAdd>, "
         "Combinator<Combinator<SumAdd,MinAdd>,MaxAdd>, the lawful non-commutative harness items affHash (affine modifiers, "
-        "which do not commute) and strCat, and Combinator<affHash,affHash>. One element in six carries a pending modifier of its own "
+        "which do not commute) and strCat, Combinator<affHash,affHash>, and flip-a-range/count-ones as a lazy item with the "
+        "zero-sized modifier `()` (flipz) and with a one-byte modifier (flipb). One element in six carries a pending modifier of its own "
         "(`v@md`, as a snapshot taken with ask(i,i) does). Streams: (1) every history of length <= 3 over n <= 4 (length 4 over n = 3, length 5 over "
-        "n = 2 in thorough; one shorter in quick) for affHash and strCat over a two-element non-commuting modifier alphabet; "
+        "n = 2 in thorough; one shorter in quick) for affHash, strCat (two-element non-commuting modifier alphabets) and flipz; "
         "(2) random histories, constructor new/from_slice/from_iter x n in 1..17 (7/8) or {31,32,33,63,64,65,100,127,128,129} (1/8), "
         "op mix set 19% / modify 31% / ask 37% / lower_bound 6% / lower_bound_rev 6% / debug; (3) a small out-of-domain stream for the "
         "API's asserts and the empty constructors. Operations outside 0 <= l <= r < n are outside the property's domain: their view "
